@@ -269,7 +269,8 @@ theorem addWithId_cases (id : Id) (f : Fields) (s : Code.Stream) :
 /-- the outcomes of `generate_next_atomic` -/
 theorem nextAuto_cases (q : Quirks) (now : Nat) (s : Code.Stream) :
     (now > s.atomMs ∧ nextAuto q now s = some (⟨now, 0⟩, now, 0)) ∨
-    (now ≤ s.atomMs ∧ q.seqCarry = true ∧ s.atomSeq + 1 ≥ u64Mod ∧ s.atomMs + 1 ≥ u64Mod ∧ nextAuto q now s = none) ∨
+    (now ≤ s.atomMs ∧ q.seqCarry = true ∧ s.atomSeq + 1 ≥ u64Mod ∧ s.atomMs + 1 ≥ u64Mod ∧
+        nextAuto q now s = some (⟨s.atomMs, u64Max⟩, s.atomMs, s.atomSeq)) ∨
     (now ≤ s.atomMs ∧ q.seqCarry = true ∧ s.atomSeq + 1 ≥ u64Mod ∧ s.atomMs + 1 < u64Mod ∧
         nextAuto q now s = some (⟨s.atomMs + 1, 0⟩, s.atomMs + 1, 0)) ∨
     (now ≤ s.atomMs ∧ (q.seqCarry = false ∨ s.atomSeq + 1 < u64Mod) ∧
@@ -289,10 +290,12 @@ theorem nextAuto_cases (q : Quirks) (now : Nat) (s : Code.Stream) :
       have h2' : q.seqCarry = false := by cases hq : q.seqCarry <;> simp_all
       simp [h1, h2', h1']
 
-/-- whenever `generate_next_atomic` yields an ID outside the wrap situation, it exceeds the last ID
-    and the atomics are left equal to it -/
+/-- whenever `generate_next_atomic` yields an ID outside the wrap situation (and, for the repaired
+    generator, not at the top of the ID space, which the engine refuses beforehand), it exceeds the
+    last ID and the atomics are left equal to it -/
 theorem nextAuto_gt (q : Quirks) (now : Nat) (s : Code.Stream) (hl : s.lastId = ⟨s.atomMs, s.atomSeq⟩)
-    (hw : q.seqCarry = true ∨ wrapsAt now s = false) (id : Id) (ms sq : Nat)
+    (hw : q.seqCarry = true ∨ wrapsAt now s = false)
+    (hnt : ¬ (q.seqCarry = true ∧ isTopId s.lastId = true)) (id : Id) (ms sq : Nat)
     (hn : nextAuto q now s = some (id, ms, sq)) : s.lastId < id ∧ ms = id.ms ∧ sq = id.seq := by
   rcases nextAuto_cases q now s with ⟨h1, h⟩ | ⟨h1, h2, h3, h4, h⟩ | ⟨h1, h2, h3, h4, h⟩ | ⟨h1, h2, h⟩
   · rw [h] at hn
@@ -300,7 +303,12 @@ theorem nextAuto_gt (q : Quirks) (now : Nat) (s : Code.Stream) (hl : s.lastId = 
     obtain ⟨rfl, rfl, rfl⟩ := hn
     rw [hl]; refine ⟨?_, rfl, rfl⟩
     simp only [Id.lt_def]; omega
-  · rw [h] at hn; cases hn
+  · exfalso
+    apply hnt
+    refine ⟨h2, ?_⟩
+    rw [hl]
+    simp only [isTopId, Bool.and_eq_true, decide_eq_true_eq]
+    exact ⟨h4, h3⟩
   · rw [h] at hn
     simp only [Option.some.injEq, Prod.mk.injEq] at hn
     obtain ⟨rfl, rfl, rfl⟩ := hn
@@ -320,11 +328,21 @@ theorem nextAuto_gt (q : Quirks) (now : Nat) (s : Code.Stream) (hl : s.lastId = 
     rw [Nat.mod_eq_of_lt hsmall]
     simp only [Id.lt_def, true_and]; omega
 
+/-- the engine's pre-check: refusal, or `add_auto` away from the top -/
+theorem xaddAuto_cases (q : Quirks) (now : Nat) (f : Fields) (s : Code.Stream) :
+    (q.seqCarry = true ∧ isTopId s.lastId = true ∧ xaddAuto q now f s = (s, none)) ∨
+    (¬ (q.seqCarry = true ∧ isTopId s.lastId = true) ∧ xaddAuto q now f s = addAuto q now f s) := by
+  unfold xaddAuto
+  by_cases h : q.seqCarry = true ∧ isTopId s.lastId = true
+  · left; exact ⟨h.1, h.2, by simp [h.1, h.2]⟩
+  · right; refine ⟨h, ?_⟩
+    rw [if_neg]; simpa using h
+
 theorem step_wrapped_mono (q : Quirks) (r : Run) (op : Op) (h : r.wrapped = true) : (step q r op).wrapped = true := by
   cases op with
   | addAuto now f =>
     simp only [step]
-    cases addAuto q now f r.st with
+    cases xaddAuto q now f r.st with
     | mk st' o => cases o <;> simp [h]
   | addId id f =>
     simp only [step]
@@ -343,7 +361,7 @@ theorem foldl_wrapped_mono (q : Quirks) (ops : List Op) (r : Run) (h : r.wrapped
 theorem step_addAuto_wrapped (q : Quirks) (r : Run) (now : Nat) (f : Fields) :
     (step q r (.addAuto now f)).wrapped = (r.wrapped || wrapsAt now r.st) := by
   simp only [step]
-  cases addAuto q now f r.st with
+  cases xaddAuto q now f r.st with
   | mk st' o => cases o <;> rfl
 
 theorem step_inv (q : Quirks) (r : Run) (op : Op) (h : Inv r)
@@ -356,13 +374,17 @@ theorem step_inv (q : Quirks) (r : Run) (op : Op) (h : Inv r)
       · right
         rw [step_addAuto_wrapped, Bool.or_eq_false_iff] at hw
         exact hw.2
-    simp only [step, addAuto]
-    cases hn : nextAuto q now r.st with
-    | none => exact inv_same h _
-    | some p =>
-      obtain ⟨id, ms, sq⟩ := p
-      obtain ⟨hgt, rfl, rfl⟩ := nextAuto_gt q now r.st h.last hw' id ms sq hn
-      exact inv_push h id f _ hgt
+    simp only [step]
+    rcases xaddAuto_cases q now f r.st with ⟨_, _, he⟩ | ⟨hnt, he⟩
+    · rw [he]; exact inv_same h _
+    · rw [he]
+      simp only [addAuto]
+      cases hn : nextAuto q now r.st with
+      | none => exact inv_same h _
+      | some p =>
+        obtain ⟨id, ms, sq⟩ := p
+        obtain ⟨hgt, rfl, rfl⟩ := nextAuto_gt q now r.st h.last hw' hnt id ms sq hn
+        exact inv_push h id f _ hgt
   | addId id f =>
     simp only [step]
     rcases addWithId_cases id f r.st with ⟨_, he⟩ | ⟨_, _, he⟩ | ⟨hgt, _, he⟩
@@ -411,10 +433,14 @@ theorem step_len (q : Quirks) (r : Run) (op : Op) (h : r.st.length = r.st.entrie
     (step q r op).st.length = (step q r op).st.entries.length := by
   cases op with
   | addAuto now f =>
-    simp only [step, addAuto]
-    cases nextAuto q now r.st with
-    | none => exact h
-    | some p => obtain ⟨id, ms, sq⟩ := p; simp [h]
+    simp only [step]
+    rcases xaddAuto_cases q now f r.st with ⟨_, _, he⟩ | ⟨_, he⟩
+    · rw [he]; exact h
+    · rw [he]
+      simp only [addAuto]
+      cases nextAuto q now r.st with
+      | none => exact h
+      | some p => obtain ⟨id, ms, sq⟩ := p; simp [h]
   | addId id f =>
     simp only [step]
     rcases addWithId_cases id f r.st with ⟨_, he⟩ | ⟨_, _, he⟩ | ⟨hgt, _, he⟩
@@ -457,12 +483,16 @@ theorem step_seq_room (q : Quirks) (r : Run) (op : Op) (k : Nat)
     have hnw : wrapsAt now r.st = false := by
       simp only [wrapsAt, Bool.and_eq_false_iff, decide_eq_false_iff_not]; right; omega
     refine ⟨?_, by rw [step_addAuto_wrapped, hnw, Bool.or_false]⟩
-    simp only [step, addAuto]
-    rcases nextAuto_cases q now r.st with ⟨h1, h⟩ | ⟨h1, h2, h3, h4, h⟩ | ⟨h1, h2, h3, h4, h⟩ | ⟨h1, h2, h⟩
-    · rw [h]; simp only [u64Mod] at *; omega
-    · omega
-    · omega
-    · rw [h, Nat.mod_eq_of_lt (by omega)]; simp only; omega
+    simp only [step]
+    rcases xaddAuto_cases q now f r.st with ⟨_, _, he⟩ | ⟨_, he⟩
+    · rw [he]; simp only; omega
+    · rw [he]
+      simp only [addAuto]
+      rcases nextAuto_cases q now r.st with ⟨h1, h⟩ | ⟨h1, h2, h3, h4, h⟩ | ⟨h1, h2, h3, h4, h⟩ | ⟨h1, h2, h⟩
+      · rw [h]; simp only [u64Mod] at *; omega
+      · omega
+      · omega
+      · rw [h, Nat.mod_eq_of_lt (by omega)]; simp only; omega
   | addId id f =>
     simp only [step]
     simp only [seqRoom] at hop
